@@ -79,7 +79,10 @@ SITES = {
     "resp_too_large": (("h1", "h2"), 502, "response_header_value", False, "stream"),
     "resp_h2_bad_status": (("h1", "h2"), 502, "response_h2_status", True, "stream"),
     "connect_eager_failed": (("h1",), 502, "upstream_error", False, "connect"),
+    # not a Request site: the page an exchange gets when its upstream connection dies (history family, see Exchange)
+    "upstream_closed": (("h1",), 502, "none", False, "exchange"),
 }
+OUTCOMES = ("ok", "before_head", "mid_body")
 # files that may call format_error( / make_error_response( ; anything else means the site list is stale
 KNOWN_CALLERS = {
     "mitmproxy/proxy/layers/http/_base.py", "mitmproxy/proxy/layers/http/_http1.py",
@@ -251,6 +254,63 @@ def ctype_class(values) -> str:
     return "html" if mt in (b"text/html", b"application/xhtml+xml") else "other"
 
 
+def _looks_html(ctype: str, body: bytes) -> bool:
+    return ctype == "html" or any(m.split(" ")[0] == "html" for _o, m in tokenise(body).marks)
+
+
+def h1_stream_items(chunks, closed: bool):
+    """The harness's HTTP/1 reader over everything mitmproxy wrote to the client, as a sequence of responses.
+
+    Returns items {off, status, ctype, body, fr, complete, embedded}.  Responses are read one after the other
+    (1xx/204/304 without body, Content-Length, chunked, or close-delimited).  A write that starts with a status line
+    but does NOT start at a message boundary of that sequence is reported as an `embedded` item (bytes that look like
+    a response but lie inside another response)."""
+    raw = b"".join(chunks)
+    items, off = [], 0
+    while off < len(raw):
+        fr, body = h1_view(raw[off:], closed)
+        status, ctype = fr.pop("status"), fr.pop("ctype")
+        consumed = len(raw) - off
+        if fr["parsed"]:
+            head_len = raw[off:].index(b"\r\n\r\n") + 4
+            if 100 <= status < 200 or status in (204, 304):
+                consumed, body = head_len, b""
+                fr.update(has_len=False, chunked=False, delta=0)
+                complete = True
+            elif fr["has_len"]:
+                n = len(raw) - off - head_len - fr["delta"]
+                rest = raw[off + head_len + n:] if fr["delta"] > 0 else b""
+                if fr["delta"] > 0 and rest.startswith(b"HTTP/1."):
+                    consumed, body = head_len + n, raw[off + head_len: off + head_len + n]
+                    fr["delta"] = 0
+                complete = fr["delta"] == 0
+            elif fr["chunked"]:
+                complete = fr["delta"] == 0
+            else:
+                complete = bool(closed)
+        else:
+            complete = False
+        items.append({"off": off, "status": status, "ctype": ctype, "body": body, "fr": fr, "complete": complete,
+                      "embedded": False})
+        off += consumed
+    starts = {it["off"] for it in items}
+    o = 0
+    for c in chunks:
+        if o not in starts and c.startswith(b"HTTP/1."):
+            fr, body = h1_view(raw[o:], closed)
+            status, ctype = fr.pop("status"), fr.pop("ctype")
+            items.append({"off": o, "status": status, "ctype": ctype, "body": body, "fr": fr, "complete": False,
+                          "embedded": True})
+        o += len(c)
+    items.sort(key=lambda it: it["off"])
+    prev_complete = None
+    for it in items:
+        it["prior"] = "open" if it["embedded"] or prev_complete is False else ("none" if prev_complete is None else "complete")
+        if not it["embedded"]:
+            prev_complete = it["complete"]
+    return items
+
+
 # ------------------------------------------------------------------------------------------------------
 # driving the real layers
 # ------------------------------------------------------------------------------------------------------
@@ -260,8 +320,10 @@ def payload_text(atoms, neutral: bool) -> str:
     return S_MARK + "".join(ATOMS[a][0] for a in atoms) + E_MARK
 
 
-def drive(site: str, proto: str, text: str, opts_extra=None):
-    """Run one request through the real layers.  Returns (bytes sent to the client, client closed by mitmproxy)."""
+def drive(site, proto: str, text: str, opts_extra=None, history=()):
+    """Run one client connection through the real layers: the exchanges of `history` ((expect, stream, outcome) each,
+    HTTP/1 only), then -- unless site is None -- the request that makes mitmproxy answer with a page.
+    Returns (list of byte strings written to the client, client closed by mitmproxy, h2 peer)."""
     from vf import sansio
 
     from mitmproxy.proxy.layers import http
@@ -312,7 +374,7 @@ def drive(site: str, proto: str, text: str, opts_extra=None):
         raw_request = b"CONNECT example.com:443 HTTP/1.1\r\n\r\n"
         open_err = "upstream said: " + text
         opts["connection_strategy"] = "eager"
-    else:
+    elif site is not None:
         raise ValueError(site)
 
     o = sansio.make_options(**opts)
@@ -321,9 +383,39 @@ def drive(site: str, proto: str, text: str, opts_extra=None):
     if proto == "h2":
         ctx.client.alpn = b"h2"
     top = http.HttpLayer(ctx, http.HTTPMode.regular)
-    d = sansio.Driver(ctx, top, auto_hooks=True)
+    cur = {"stream": False}
+
+    def on_hook(_d, hook):  # an addon turns on streaming for the response of the current exchange
+        if hook.name == "responseheaders" and cur["stream"]:
+            hook.args()[0].response.stream = True
+
+    d = sansio.Driver(ctx, top, auto_hooks=True, on_hook=on_hook)
     d.start()
-    if proto == "h1":
+    for i, (expect, stream, outcome) in enumerate(history):
+        cur["stream"] = bool(stream)
+        host = b"h%d.example" % i
+        req = b"POST http://" + host + b"/ HTTP/1.1\r\nHost: " + host + b"\r\nContent-Length: 3\r\n"
+        if expect:
+            req += b"Expect: 100-continue\r\n"
+        d.data("client", req + b"\r\n")
+        d.data("client", b"abc")
+        ops = d.opens_pending()
+        if not ops:
+            break  # the code did not ask for an upstream connection: diverged, judge what was written so far
+        d.complete(ops[0], None)
+        name = d.name(ops[0].connection)
+        head = b"HTTP/1.1 200 OK\r\nContent-Type: application/octet-stream\r\nContent-Length: 10\r\n\r\n"
+        if outcome == "ok":
+            d.data(name, head + b"0123456789")
+        elif outcome == "mid_body":
+            d.data(name, head + b"012")
+            d.peer_close(name)
+        else:
+            d.peer_close(name)
+    cur["stream"] = False
+    if site is None:
+        pass
+    elif proto == "h1":
         if raw_request is None:
             raw_request = method + b" " + target + b" HTTP/1.1\r\nHost: example.com\r\n"
             for k, v in headers:
@@ -345,7 +437,7 @@ def drive(site: str, proto: str, text: str, opts_extra=None):
         if body is not None:
             peer.send_data(1, body, end_stream=True)
         d.data("client", peer.data_to_send())
-    for _ in range(4):
+    for _ in range(4 if site is not None else 0):
         ops = d.opens_pending()
         if not ops:
             break
@@ -374,7 +466,8 @@ def drive(site: str, proto: str, text: str, opts_extra=None):
     from mitmproxy.connection import ConnectionState
 
     closed = ctx.client.state is ConnectionState.CLOSED
-    return d.sent_to("client"), closed, peer
+    chunks = [bytes(e["data"]) for e in d.log if e["t"] == "send" and e["c"] == "client"]
+    return chunks, closed, peer
 
 
 def h2_read(peer, raw: bytes):
@@ -404,34 +497,39 @@ def h2_read(peer, raw: bytes):
     return [out[k] for k in sorted(out)], broken
 
 
+NO_HTML = {"html0": False, "skel": [], "skel0": [], "nlt": 0, "nlt0": 0, "refl": False, "inner": [], "dec": []}
+
+
 def run_scenario(sc):
-    site, proto, atoms = sc["site"], sc["proto"], list(sc["atoms"])
+    site, proto, atoms = sc.get("site"), sc.get("proto", "h1"), list(sc.get("atoms", []))
+    history = [tuple(h) for h in sc.get("history", [])]
     size = int(sc.get("size", 0))
     pre, post = "Q" * SIZE_FILL[size] + sc.get("pre", ""), sc.get("post", "")
-    srck = SITES[site][2]
     src = [c for a in atoms for c in ATOMS[a][1]]
-    trace = [{"k": "input", "site": site, "proto": proto, "srck": srck, "src": src,
-              "lines": 1 + sum(1 for a in atoms if a in NEWLINE_ATOMS), "size": size}]
+    trace = []
+    for expect, stream, outcome in history:
+        trace.append({"k": "input", "site": "exchange", "proto": "h1", "srck": "none", "src": [], "lines": 1, "size": 0,
+                      "expect": bool(expect), "stream": bool(stream), "outcome": outcome})
+    if site is not None:
+        srck = SITES[site][2]
+        trace.append({"k": "input", "site": site, "proto": proto, "srck": srck, "src": src,
+                      "lines": 1 + sum(1 for a in atoms if a in NEWLINE_ATOMS), "size": size})
+    else:
+        site_name, srck = "upstream_closed", "none"
     runs = []
-    for neutral in (False, True):
+    for neutral in ((False, True) if site is not None else (False,)):
         text = pre + payload_text(atoms, neutral) + post
         try:
-            runs.append(drive(site, proto, text, sc.get("opts")))
+            runs.append(drive(site, proto, text, sc.get("opts"), history))
         except Exception as e:  # noqa: BLE001  the code under test raised out of handle_event
             trace.append({"k": "raised", "exc": type(e).__name__, "neutral": neutral})
             trace.append({"k": "end"})
-            return trace
-    (raw, closed, peer), (raw0, _closed0, peer0) = runs
-    pages = []  # (status, ctype, body, framing)
-    if proto == "h1":
-        for r, c in ((raw, closed), (raw0, _closed0)):
-            if r:
-                fr, body = h1_view(r, c)
-                pages.append((fr.pop("status"), fr.pop("ctype"), body, fr))
-            else:
-                pages.append(None)
-    else:
-        for r, p in ((raw, peer), (raw0, peer0)):
+            return _order(trace)
+    chunks, closed, peer = runs[0]
+    chunks0, closed0, peer0 = runs[-1]
+    if proto == "h2":
+        pages = []
+        for r, p in ((b"".join(chunks), peer), (b"".join(chunks0), peer0)):
             rs, broken = h2_read(p, r)
             if rs:
                 x = rs[0]
@@ -441,18 +539,66 @@ def run_scenario(sc):
                 pages.append((x["status"], ctype_class(x["ct"]), x["body"], fr))
             else:
                 pages.append(None)
-    pg, pg0 = pages
-    if pg is not None:
-        status, ctype, body, fr = pg
-        body0 = pg0[2] if pg0 is not None else b""
-        hv = html_view(body, body0)
-        if not hv["html0"] and ctype != "html":
-            # not an HTML page (the plain 502 of the eager CONNECT path): the HTML projection does not apply
-            hv = {"html0": False, "skel": [], "skel0": [], "nlt": 0, "nlt0": 0, "refl": False, "inner": [], "dec": []}
-        trace.append({"k": "page", "site": site, "proto": proto, "srck": srck, "status": status, "ctype": ctype,
-                      **hv, "src": src, **fr})
+        pg, pg0 = pages
+        if pg is not None:
+            status, ctype, body, fr = pg
+            hv = html_view(body, pg0[2] if pg0 is not None else b"")
+            if not hv["html0"] and ctype != "html":
+                hv = dict(NO_HTML)
+            trace.append({"k": "page", "site": site, "proto": proto, "srck": srck, "status": status, "ctype": ctype,
+                          **hv, "src": src, **fr, "prior": "none"})
+        trace.append({"k": "end"})
+        return _order(trace)
+    # HTTP/1: everything written to the client, read as a sequence of responses
+    items = h1_stream_items(chunks, closed)
+    items0 = [it for it in h1_stream_items(chunks0, closed0) if not it["embedded"]]
+    n_hist = sum((1 if e else 0) + (1 if o == "ok" or (o == "mid_body" and st) else 0) for e, st, o in history)
+    seq = 0
+    answered = False
+    for it in items:
+        idx = None if it["embedded"] else seq
+        if not it["embedded"]:
+            seq += 1
+        # responses the history accounts for (interim 100s, relayed upstream responses) are not pages; what mitmproxy
+        # wrote beyond them is: the answer to the failing request / exchange, or response-like bytes inside another one
+        is_answer = idx is not None and idx >= n_hist and (site is not None and not answered
+                                                            or _looks_html(it["ctype"], it["body"]))
+        if is_answer or (it["embedded"] and _looks_html(it["ctype"], it["body"])):
+            if is_answer:
+                answered = True
+            body0 = items0[idx]["body"] if idx is not None and idx < len(items0) else it["body"]
+            hv = html_view(it["body"], body0)
+            if not hv["html0"] and it["ctype"] != "html":
+                # not an HTML page (the plain 502 of the eager CONNECT path): the HTML projection does not apply
+                hv = dict(NO_HTML)
+            trace.append({"k": "page", "site": site if site is not None else "upstream_closed", "proto": "h1",
+                          "srck": srck, "status": it["status"], "ctype": it["ctype"], **hv,
+                          "src": src if site is not None else [], **it["fr"], "prior": it["prior"]})
+        else:
+            trace.append({"k": "resp", "status": it["status"], "complete": bool(it["complete"])})
     trace.append({"k": "end"})
-    return trace
+    return _order(trace)
+
+
+def _order(trace):
+    """Inputs are logged when the scenario is built, responses when the stream is read afterwards; the model emits the
+    input of an exchange before that exchange's responses.  Interleave: history input i precedes the responses of
+    exchange i.  (The reader cannot attribute responses to exchanges; the harness does it by counting: an exchange with
+    Expect contributes an interim response, one with a relayed head a final response.)"""
+    inputs = [e for e in trace if e["k"] == "input"]
+    rest = [e for e in trace if e["k"] != "input"]
+    if len(inputs) <= 1:
+        return inputs + rest
+    out = []
+    for inp in inputs:
+        out.append(inp)
+        if inp.get("site") != "exchange":
+            continue
+        want = (1 if inp["expect"] else 0) + (1 if inp["outcome"] == "ok" or (inp["outcome"] == "mid_body" and inp["stream"]) else 0)
+        while want and rest and rest[0]["k"] == "resp":
+            out.append(rest.pop(0))
+            want -= 1
+    return out + rest
 
 
 # ------------------------------------------------------------------------------------------------------
@@ -463,9 +609,11 @@ class Check(core.PropertyCheck):
     MON = "Mon_ErrorPage"
     REQUIRED_WITNESSES = ("html_page_h1", "html_page_h2", "reflected", "not_reflected", "escaped_lt", "escaped_amp",
                           "escaped_quot", "escaped_apos", "h1_length_exact", "h1_closed", "plain_page", "multiline_escaped_lt",
-                          "long16_h1_exact", "long64_h1_exact", "long16_h2_page")
+                          "long16_h1_exact", "long64_h1_exact", "long16_h2_page", "fault_after_head_closed_only",
+                          "fault_after_interim_and_head", "page_after_complete_exchange", "page_after_earlier_interim")
     REQUIRED_ACTIONS = ("Request", "H1ReadHeadersError", "StreamError", "H1SendError", "H2SendError",
-                        "ConnectEagerFail", "Finish")
+                        "ConnectEagerFail", "Finish", "Exchange", "XRequestHeaders", "XUpstreamOk",
+                        "XUpstreamPartial", "XFault")
     ASSUMPTIONS = (
         "html.parser.HTMLParser is the HTML tokeniser of record: 'unescaped' means it sees a tag/comment/declaration or a "
         "character reference that escaping cannot have produced between the payload markers, the page's token "
@@ -490,7 +638,8 @@ class Check(core.PropertyCheck):
 
     def model_constants(self, tier):
         return {"Sites": self._sites(), "Atoms": self._atoms(ATOMS_QUICK if tier == "quick" else tuple(ATOMS)),
-                "MaxAtoms": 2, "Escape": True, "CType": "html"}
+                "MaxAtoms": 2, "Escape": True, "CType": "html", "MaxEx": 1 if tier == "quick" else 2,
+                "StickyInterim": False}
 
     def setup(self, ctx):
         import os
@@ -535,23 +684,40 @@ class Check(core.PropertyCheck):
     def scenarios(self, ctx, models):
         g = models[0].graph
         n = 0
-        for b in g.edge_cover(ctx.rng, max_len=8, tail=6):
-            if len(b) < 2 or b[1][0] != "Request":
+        closers = ("H1ReadHeadersError", "H1SendError", "H2SendError", "ConnectEagerFail", "XUpstreamOk", "XFault")
+        seen = set()
+        for b in g.edge_cover(ctx.rng, max_len=20, tail=10):
+            # keep the longest prefix that ends where a unit (an exchange or the failing request) is finished
+            last = max((i for i, st in enumerate(b) if st[0] in closers or st[0] == "Finish"), default=0)
+            b = b[: last + 1]
+            history, final = [], None
+            for name, args, _st in b[1:]:
+                if name == "Exchange":
+                    history.append([bool(args[0]), bool(args[1]), str(args[2])])
+                elif name == "Request":
+                    final = args
+            if not history and final is None:
                 continue
-            site, proto, atoms, size = b[1][1]
             pred = core.predicted_events(b)
-            if not pred or pred[-1].get("k") != "end":
-                pred = None
-            pre, post = (("", ""), ("ab", ""), ("", "cd"), ("ab", "cd"))[n % 4] if not ctx.quick else ("", "")
-            n += 1
-            yield core.Scenario({"site": site, "proto": proto, "atoms": list(atoms), "pre": pre, "post": post,
-                                 "size": int(size)}, predicted=pred, source="model")
+            if b[-1][0] != "Finish":
+                pred = pred + [{"k": "end"}]  # the harness closes every trace with "end"
+            sc = {"history": history, "site": None}
+            if final is not None:
+                site, proto, atoms, size = final
+                pre, post = (("", ""), ("ab", ""), ("", "cd"), ("ab", "cd"))[n % 4] if not ctx.quick else ("", "")
+                n += 1
+                sc.update({"site": site, "proto": proto, "atoms": list(atoms), "pre": pre, "post": post, "size": int(size)})
+            key = repr(sc)
+            if key in seen:
+                continue
+            seen.add(key)
+            yield core.Scenario(sc, predicted=pred, source="model")
         # beyond the model: longer payloads, all atoms, surrounding text, option variations
         rng = random.Random(ctx.seed + 12)
         names = list(ATOMS)
         fill = ["", "a", "Zq", "0", "x-y", "%3C", "\\", "€", "~"]
         for _ in range(400 if ctx.quick else 12000):
-            site = rng.choice(list(SITES))
+            site = rng.choice([k for k in SITES if SITES[k][4] != "exchange"])
             proto = rng.choice(SITES[site][0])
             atoms = [rng.choice(names) for _i in range(rng.randint(1, 7))]
             if site not in MULTILINE_SITES:
@@ -563,6 +729,13 @@ class Check(core.PropertyCheck):
                 sc["size"] = rng.choice([z for z in (1, 2) if size_ok(site, proto, z)] or [0])
             if rng.random() < 0.2 and site not in ("req_bad_header_name", "resp_bad_header_name"):
                 sc["opts"] = {"validate_inbound_headers": False}
+            # histories beyond the model's bounds: several complete exchanges first, or an upstream fault as the end
+            r = rng.random()
+            if proto == "h1" and r < 0.45:
+                sc["history"] = [[rng.random() < 0.5, rng.random() < 0.5, "ok"] for _i in range(rng.randint(1, 4))]
+                if r < 0.2:
+                    sc = {"history": sc["history"] + [[rng.random() < 0.5, rng.random() < 0.6,
+                                                       rng.choice(("before_head", "mid_body"))]], "site": None}
             yield core.Scenario(sc, source="random")
 
     def execute(self, sc):
